@@ -267,6 +267,7 @@ bool Gen::emitOp(const std::vector<std::string>& ops, const std::vector<int>& po
             else if (ca && (!cb || R.chance(50))) st.push_back("ia");
             else if (cb) st.push_back("ib");
         }
+        else if (R.chance(5)) st.push_back("used");
         emit(st);
     };
     auto emitUn = [&](const std::string& op, int a, int dst, int fc) {
